@@ -93,7 +93,7 @@ func init() {
 		After:     explore.MergeSched("C01", true),
 		Bounds: func(tier string) map[string]any {
 			return map[string]any{"continuation_depth": c01Depth(tier), "in_place_letters": len(c01Letters()), "continuation_letters": 7,
-				"schedule_part": "scenarios S-G (two users authenticating concurrently, both accepted) and S-J (one accepted, one rejected with a pipelined Query): all schedules with <= 2 preemptions (thorough: all schedules), race monitor on"}
+				"schedule_part": "scenarios S-G (two users authenticating concurrently, both accepted), S-J (one accepted, one rejected with a pipelined Query) and S-M (the same account, one right and one wrong password): all schedules with <= 2 preemptions (thorough: all schedules), race monitor on"}
 		},
 		RequiredOutcomes: []string{"accepted", "rejected-by-validator", "validator-failed", "malformed-closed"},
 	})
@@ -216,6 +216,9 @@ func c01Server(calls *c01Calls, auth bool) (*harness.One, error) {
 			calls.rec.Add(script.Ev{Kind: "terminate"})
 			return nil
 		}),
+		// a close hook that cannot do its work (nothing of the session it expects exists for a rejected
+		// connection): whatever the library does with hooks, the connection is closed all the same
+		wire.CloseConn(func(ctx context.Context) error { return errors.New("close hook: no session state") }),
 	}
 	if auth {
 		opts = append(opts, wire.SessionAuthStrategy(wire.ClearTextPassword(validate)))
